@@ -227,11 +227,11 @@ func (m *MV) g(b *strings.Builder) {
 		b.WriteString("(VStr " + lib.GStr(m.S) + ")")
 	case "VArr":
 		fmt.Fprintf(b, "(VArr %d%%N ", m.Id)
-		gList(b, len(m.E), "rvalue str", func(i int) { m.E[i].g(b) })
+		gList(b, len(m.E), "@rvalue str", func(i int) { m.E[i].g(b) })
 		b.WriteString(")")
 	case "VHash":
 		fmt.Fprintf(b, "(VHash %d%%N ", m.Id)
-		gList(b, len(m.E)/2, "rvalue str * str * rvalue str", func(i int) {
+		gList(b, len(m.E)/2, "@rvalue str * str * @rvalue str", func(i int) {
 			b.WriteString("(")
 			m.E[2*i].g(b)
 			b.WriteString(", " + lib.GStr(m.Ks[i]) + ", ")
@@ -251,7 +251,7 @@ func (m *MV) g(b *strings.Builder) {
 		fmt.Fprintf(b, "(VObj %d%%N ", m.Id)
 		m.Ty.g(b)
 		fmt.Fprintf(b, " %d%%nat ", m.Hint)
-		gList(b, len(m.E), "str * rvalue str", func(i int) {
+		gList(b, len(m.E), "str * @rvalue str", func(i int) {
 			b.WriteString("(" + lib.GStr(m.An[i]) + ", ")
 			m.E[i].g(b)
 			b.WriteString(")")
@@ -301,11 +301,11 @@ func (m *MV) pe(b *strings.Builder) {
 		b.WriteString("(PStr " + lib.GStr(m.S) + ")")
 	case "VArr":
 		b.WriteString("(PArr ")
-		gList(b, len(m.E), "pvalue str", func(i int) { m.E[i].pe(b) })
+		gList(b, len(m.E), "@pvalue str", func(i int) { m.E[i].pe(b) })
 		b.WriteString(")")
 	case "VHash":
 		b.WriteString("(PHash ")
-		gList(b, len(m.E)/2, "pvalue str * pvalue str", func(i int) {
+		gList(b, len(m.E)/2, "@pvalue str * @pvalue str", func(i int) {
 			b.WriteString("(")
 			m.E[2*i].pe(b)
 			b.WriteString(", ")
@@ -325,7 +325,7 @@ func (m *MV) pe(b *strings.Builder) {
 		b.WriteString("(PObj ")
 		m.Ty.pe(b)
 		b.WriteString(" ")
-		gList(b, len(m.E), "pvalue str * pvalue str", func(i int) {
+		gList(b, len(m.E), "@pvalue str * @pvalue str", func(i int) {
 			b.WriteString("(PStr " + lib.GStr(m.An[i]) + ", ")
 			m.E[i].pe(b)
 			b.WriteString(")")
